@@ -305,6 +305,12 @@ impl TypedProp for C01 {
             }
             changes + b2.len()
         }
+        // ... or one of two or more custom-action states that share a key coordinate goes away:
+        // the release of that coordinate produces a custom event for each of them (also for one
+        // that a one-shot keeps alive), and only one is delivered
+        fn shared_coord_removed(a: &[(u8, u16, usize)], b: &[(u8, u16, usize)]) -> bool {
+            a.iter().any(|x| !b.contains(x) && a.iter().filter(|y| (y.0, y.1) == (x.0, x.1)).count() >= 2)
+        }
         let mut probe = |s: &Sim| {
             let l = s.k.layout.b();
             if l.states.len() >= 64 {
@@ -379,7 +385,8 @@ impl TypedProp for C01 {
                             let before = customs(&sim);
                             sim.tick();
                             let _ = sim.k.can_block_update_idle_waiting(1);
-                            if diff(&before, &customs(&sim)) >= 2 {
+                            let after = customs(&sim);
+                            if diff(&before, &after) >= 2 || shared_coord_removed(&before, &after) {
                                 multi_custom_tick = true;
                             }
                             probe(&sim);
@@ -407,7 +414,8 @@ impl TypedProp for C01 {
             let n0 = sim.outs.len();
             sim.tick();
             if let Some(b) = before {
-                if diff(&b, &customs(&sim)) >= 2 {
+                let after = customs(&sim);
+                if diff(&b, &after) >= 2 || shared_coord_removed(&b, &after) {
                     multi_custom_tick = true;
                 }
             }
